@@ -13,6 +13,8 @@ From Splinkv Require Import Base.Graph Model.CC Proofs.CCP Model.MultiThr Proofs
 Import ListNotations.
 Open Scope Z_scope.
 
+(* every edge row joins two rows of the node table.  C11_each_threshold does not need it (the spec's
+   connectivity is restricted to the node table); the link to the C05 loop model does. *)
 Definition closed_rows (nodes : list Z) (edges : list (Z * Z * Q)) : Prop :=
   forall a b p, In (a, b, p) edges -> In a nodes /\ In b nodes.
 
@@ -115,6 +117,73 @@ Proof.
   - split; [exact T|]. unfold cluster_stats. fold sizes. rewrite map_length. unfold sizes at 3. rewrite T. reflexivity.
 Qed.
 Print Assumptions C11_stats_of_partition.
+
+(* ------------------------------------------------------------------------------------ *)
+(* The inner clustering calls.  `multi` calls the C05 *spec* (cluster_spec); `multi_lm` is the same
+   routine with the C05 *loop model* cluster_at_threshold (Model/CC.v) for every clustering call. *)
+
+(* whatever the previous clustering, the in-play node and edge tables handed to the inner call
+   satisfy the hypotheses of C05: distinct ids, every edge joins two in-play nodes *)
+Theorem C11_in_play_tables_satisfy_C05_hypotheses :
+  forall nodes edges t t' cc,
+    NoDup nodes ->
+    let sn := stable_nodes cc (stable_clusters t' (cluster_edge_probabilities cc (relevant_edges t edges))) in
+    let nip := nodes_in_play nodes sn in
+    let eip := edges_in_play edges nip in
+    NoDup nip /\ closed_edges nip (thr_edges (Some t') eip) /\
+    forall a b p, In (a, b, p) eip -> In a nip /\ In b nip.
+Proof. intros nodes edges t t' cc ND. exact (nip_hyps nodes edges ND t t' cc). Qed.
+Print Assumptions C11_in_play_tables_satisfy_C05_hypotheses.
+
+(* one pass: with the loop model for the inner call the pass terminates and yields the same rows *)
+Theorem C11_inner_call_by_loop_model_same_rows :
+  forall nodes edges t t' cc,
+    NoDup nodes -> (t <= t')%Q ->
+    (forall v c, In (v, c) cc <-> In v nodes /\ c = comp_min nodes (thr_edges (Some t) edges) v) ->
+    NoDup (map fst cc) ->
+    exists cc', next_cc_lm nodes edges t t' cc = Some cc' /\
+                forall v c, In (v, c) cc' <-> In (v, c) (next_cc nodes edges t t' cc).
+Proof.
+  intros nodes edges t t' cc ND Hle G NDcc.
+  destruct (next_cc_lm_good nodes edges ND t t' cc Hle (conj NDcc G)) as (cc' & E & _ & R). eauto.
+Qed.
+Print Assumptions C11_inner_call_by_loop_model_same_rows.
+
+(* the whole routine with the loop model everywhere: never runs out of fuel, has one entry per
+   requested threshold, and every entry has the same rows as the corresponding entry of `multi`
+   (both are the component-minimum labelling).  closed_rows is needed here - for the first call only. *)
+Theorem C11_loop_model_throughout :
+  forall nodes edges thresholds,
+    NoDup nodes -> closed_rows nodes edges ->
+    exists r, multi_lm nodes edges thresholds = Some r /\
+              map fst r = map fst (multi nodes edges thresholds) /\
+              forall t cc, In (t, cc) r ->
+                Permutation (map fst cc) nodes /\
+                (forall v c, In (v, c) cc <-> In v nodes /\ c = comp_min nodes (thr_edges (Some t) edges) v) /\
+                exists cc0, In (t, cc0) (multi nodes edges thresholds) /\ forall v c, In (v, c) cc <-> In (v, c) cc0.
+Proof.
+  intros nodes edges ts ND CL. destruct (multi_lm_good nodes edges ND CL ts) as (r & E & K & G).
+  exists r. split; [exact E|]. split; [now rewrite K, (multi_keys nodes edges ts)|].
+  intros t cc Hin. pose proof (G t cc Hin) as Gc. split; [eapply good_cc_perm; eauto|]. split; [apply Gc|].
+  assert (Ht : In t ts).
+  { apply (sortQ_in t ts). rewrite <- K. change t with (fst (t, cc)). now apply in_map. }
+  destruct (multi_covers nodes edges ts t Ht) as [cc0 H0]. exists cc0. split; [exact H0|].
+  pose proof (multi_good nodes edges ND ts t cc0 H0) as [_ G0]. destruct Gc as [_ Gc].
+  intros v c. now rewrite Gc, G0.
+Qed.
+Print Assumptions C11_loop_model_throughout.
+
+(* without closed_rows the two diverge (an edge row that mentions an id absent from the node table:
+   the loop model, like the implementation, joins records through the absent id; see C05) *)
+Example C11_non_closed_rows_diverge_refuted :
+  multi [2; 3] [(0, 2, Qmake 1 1); (0, 3, Qmake 1 1)] [Qmake 1 2] = [(Qmake 1 2, [(2, 2); (3, 3)])] /\
+  multi_lm [2; 3] [(0, 2, Qmake 1 1); (0, 3, Qmake 1 1)] [Qmake 1 2] = Some [(Qmake 1 2, [(2, 0); (3, 0)])].
+Proof. split; vm_compute; reflexivity. Qed.
+
+(* empty node table: SQL returns (0, NULL, NULL); the model's cluster_stats [] is (0, 0, 0).  The
+   statistics theorem above is about the rows of a partition of a node table and is vacuous here. *)
+Example C11_stats_empty_table_note : cluster_stats [] = (0%nat, 0%nat, Qmake 0 1).
+Proof. vm_compute. reflexivity. Qed.
 
 (* non-vacuity: unsorted thresholds including 1 and a value equal to an edge probability *)
 Definition ex_nodes := [0; 1; 2; 3; 4; 5].
